@@ -139,6 +139,9 @@ def parse_mps(text):
             if abs(l - round(l)) > 1e-9:
                 raise HarnessError("FakeCBC: fractional fixed column")
             l = h = int(round(l))
+        if l > h:
+            # CBC: "MODEL read with 1 errors ... Current model not valid"
+            raise MPSReject("column %s lower bound above upper bound" % c)
         p.lo.append(l)
         p.hi.append(h)
         p.isint.append(isint[c])
